@@ -5,6 +5,7 @@ import Driver.EvqConc
 import Driver.StreamD
 import Driver.NetD
 import Driver.NodeD
+import Driver.UdpD
 /-! `mio-driver`: reads one case per line (`<model> <args…>`), prints what the model computes.
 Imports model files only (no Mathlib, no lemma files), so it links as a native executable. -/
 open Mio Mio.Driver
@@ -19,6 +20,7 @@ def dispatch (line : String) : String :=
   | "stream" :: ws => runStream ws
   | "net" :: ws => runNet ws
   | "node" :: ws => runNode ws
+  | "udp" :: ws => runUdp ws
   | _ => "bad-case"
 
 partial def loop (h : IO.FS.Stream) (out : IO.FS.Stream) : IO Unit := do
